@@ -21,8 +21,8 @@ Import ListNotations.
 Open Scope N_scope.
 
 (* ---- every ballot partitions its order, in rank order, never splitting a class (all three modes) ---- *)
-Theorem fo_partition : forall src nic st rst ci,
-  from_ordinal src nic st rst = Ok ci ->
+Theorem fo_partition : forall src nic st rst cn ci,
+  from_ordinal src nic st rst cn = Ok ci ->
   truthy nic || truthy st || truthy rst = true ->          (* the truncator list is not empty *)
   let bs := fo_ballots nic st rst (os_multiplicity src) in
   length bs = length (os_multiplicity src) /\
@@ -31,15 +31,15 @@ Theorem fo_partition : forall src nic st rst ci,
                        exists groups : list (list (list N)),
                          concat groups = fst om /\ b = map (@concat N) groups)
           (os_multiplicity src) bs.
-Proof. exact fo_partition_lemma. Qed.
+Proof. intros src nic st rst cn ci. exact (fo_partition_lemma src nic st rst ci). Qed.
 Print Assumptions fo_partition.
 
 (* ---- category sizes: absolute truncators ---- *)
-Theorem fo_size_rule : forall src ts ci,
-  ts <> [] -> from_ordinal src None (Some ts) None = Ok ci ->
+Theorem fo_size_rule : forall src ts cn ci,
+  ts <> [] -> from_ordinal src None (Some ts) None cn = Ok ci ->
   Forall2 (fun om b => exists r, size_rule ts (fst om) r /\ padded_to (ci_num_categories ci) r b)
           (os_multiplicity src) (fo_ballots None (Some ts) None (os_multiplicity src)).
-Proof. exact fo_size_rule_lemma. Qed.
+Proof. intros src ts cn ci. exact (fo_size_rule_lemma src ts ci). Qed.
 Print Assumptions fo_size_rule.
 
 (* the rule determines the ballot *)
@@ -55,20 +55,20 @@ Proof. exact size_rule_nonempty. Qed.
 Print Assumptions fo_size_nonempty.
 
 (* relative truncators: the same rule with the per-order sizes [tab_j (len(order))]_j *)
-Theorem fo_relative_rule : forall src tabs ci,
-  tabs <> [] -> from_ordinal src None None (Some tabs) = Ok ci ->
+Theorem fo_relative_rule : forall src tabs cn ci,
+  tabs <> [] -> from_ordinal src None None (Some tabs) cn = Ok ci ->
   Forall2 (fun om b => exists r, size_rule (rel_sizes tabs (fst om)) (fst om) r /\
                                  padded_to (ci_num_categories ci) r b)
           (os_multiplicity src) (fo_ballots None None (Some tabs) (os_multiplicity src)).
-Proof. exact fo_relative_rule_lemma. Qed.
+Proof. intros src tabs cn ci. exact (fo_relative_rule_lemma src tabs ci). Qed.
 Print Assumptions fo_relative_rule.
 
 (* ---- num_indif_classes ---- *)
-Theorem fo_classes_rule : forall src ns ci,
-  ns <> [] -> from_ordinal src (Some ns) None None = Ok ci ->
+Theorem fo_classes_rule : forall src ns cn ci,
+  ns <> [] -> from_ordinal src (Some ns) None None cn = Ok ci ->
   Forall2 (fun om b => exists r, classes_rule ns (fst om) r /\ padded_to (ci_num_categories ci) r b)
           (os_multiplicity src) (fo_ballots (Some ns) None None (os_multiplicity src)).
-Proof. exact fo_classes_rule_lemma. Qed.
+Proof. intros src ns cn ci. exact (fo_classes_rule_lemma src ns ci). Qed.
 Print Assumptions fo_classes_rule.
 
 (* the assignment to the variable size_truncators inside the loop has no observable effect: every
@@ -78,9 +78,15 @@ Theorem fo_loop_variable : forall nic st rst src,
 Proof. exact fo_raw_map. Qed.
 Print Assumptions fo_loop_variable.
 
-(* ---- padding to a common number of categories ---- *)
-Theorem fo_padding : forall src nic st rst ci,
-  from_ordinal src nic st rst = Ok ci ->
+(* ---- the category_name argument is ignored by the current code ---- *)
+Theorem fo_category_name_ignored : forall src nic st rst cn cn',
+  from_ordinal src nic st rst cn = from_ordinal src nic st rst cn'.
+Proof. reflexivity. Qed.
+Print Assumptions fo_category_name_ignored.
+
+(* ---- padding to a common number of categories (whatever category_name is) ---- *)
+Theorem fo_padding : forall src nic st rst cn ci,        (* cn = category_name: any value, None or a list *)
+  from_ordinal src nic st rst cn = Ok ci ->
   let raw := fo_raw nic st rst (os_multiplicity src) in
   let bs := fo_ballots nic st rst (os_multiplicity src) in
   let k := ci_num_categories ci in
@@ -90,20 +96,20 @@ Theorem fo_padding : forall src nic st rst ci,
   Forall (fun b => lenN b = k) bs /\
   Forall (fun b => lenN b = k) (ci_preferences ci) /\
   length (ci_categories_name ci) = N.to_nat k.
-Proof. exact fo_padding_lemma. Qed.
+Proof. intros src nic st rst cn ci. exact (fo_padding_lemma src nic st rst ci). Qed.
 Print Assumptions fo_padding.
 
 (* positive truncators (relative mode: positive table entries at the lengths that occur) and non-empty
    classes: the ONLY empty categories of a produced ballot are trailing ones — no empty category in
    the middle while alternatives remain.  TrailingOnly b := b = r ++ repeat [] n with r's categories
    non-empty; trailing_ok is its boolean form (used by the harness in the relative mode) *)
-Theorem fo_empty_categories_trailing : forall src nic st rst ci,
-  from_ordinal src nic st rst = Ok ci ->
+Theorem fo_empty_categories_trailing : forall src nic st rst cn ci,
+  from_ordinal src nic st rst cn = Ok ci ->
   truthy nic || truthy st || truthy rst = true ->
   positive_params nic st rst (os_multiplicity src) ->
   Forall (fun om => Forall (fun c => c <> []) (fst om)) (os_multiplicity src) ->
   Forall TrailingOnly (ci_preferences ci).
-Proof. exact fo_trailing_lemma. Qed.
+Proof. intros src nic st rst cn ci. exact (fo_trailing_lemma src nic st rst ci). Qed.
 Print Assumptions fo_empty_categories_trailing.
 
 Theorem trailing_ok_correct : forall b, trailing_ok b = true <-> TrailingOnly b.
@@ -111,8 +117,8 @@ Proof. exact trailing_ok_iff. Qed.
 Print Assumptions trailing_ok_correct.
 
 (* ---- conservation of voters, also when different orders collapse to one ballot ---- *)
-Theorem fo_conserve : forall src nic st rst ci,
-  from_ordinal src nic st rst = Ok ci ->
+Theorem fo_conserve : forall src nic st rst cn ci,
+  from_ordinal src nic st rst cn = Ok ci ->
   let bs := fo_ballots nic st rst (os_multiplicity src) in
   let items := combine bs (map snd (os_multiplicity src)) in      (* (ballot of order i, multiplicity i) *)
   length bs = length (os_multiplicity src) /\
@@ -126,7 +132,7 @@ Theorem fo_conserve : forall src nic st rst ci,
   ci_num_voters ci = sumN (map snd (os_multiplicity src)) /\
   ci_num_unique_preferences ci = lenN (ci_preferences ci) /\
   ci_num_unique_preferences ci = lenN (first_occ bs).
-Proof. exact fo_conserve_lemma. Qed.
+Proof. intros src nic st rst cn ci. exact (fo_conserve_lemma src nic st rst ci). Qed.
 Print Assumptions fo_conserve.
 
 (* ---- the conversion checker used by the correspondence in the relative mode ---- *)
@@ -140,11 +146,11 @@ Theorem conv_check_correct : forall src prefs mult k,
 Proof. exact conv_check_correct_lemma. Qed.
 Print Assumptions conv_check_correct.
 
-Theorem fo_output_valid : forall src nic st rst ci,
-  from_ordinal src nic st rst = Ok ci ->
+Theorem fo_output_valid : forall src nic st rst cn ci,
+  from_ordinal src nic st rst cn = Ok ci ->
   truthy nic || truthy st || truthy rst = true ->
   ValidConversion (os_multiplicity src) (ci_preferences ci) (ci_multiplicity ci) (ci_num_categories ci).
-Proof. exact fo_output_valid_lemma. Qed.
+Proof. intros src nic st rst cn ci. exact (fo_output_valid_lemma src nic st rst ci). Qed.
 Print Assumptions fo_output_valid.
 
 (* ---- factorise_instance ---- *)
@@ -175,24 +181,24 @@ Proof. exact factorise_general. Qed.
 Print Assumptions factorise_any.
 
 (* ---- guards ---- *)
-Theorem fo_guard_two_or_more : forall src nic st rst,
-  (count_none nic st rst < 2)%nat -> from_ordinal src nic st rst = Err ValueErr.
-Proof. exact fo_guard_too_many. Qed.
+Theorem fo_guard_two_or_more : forall src nic st rst cn,
+  (count_none nic st rst < 2)%nat -> from_ordinal src nic st rst cn = Err ValueErr.
+Proof. intros src nic st rst cn. exact (fo_guard_too_many src nic st rst). Qed.
 Print Assumptions fo_guard_two_or_more.
 
-Theorem fo_guard_all_none : forall src, from_ordinal src None None None = Err ValueErr.
-Proof. exact fo_guard_none. Qed.
+Theorem fo_guard_all_none : forall src cn, from_ordinal src None None None cn = Err ValueErr.
+Proof. intros src cn. exact (fo_guard_none src). Qed.
 Print Assumptions fo_guard_all_none.
 
 (* max() of an empty sequence *)
-Theorem fo_guard_empty_source : forall src nic st rst,
-  os_multiplicity src = [] -> from_ordinal src nic st rst = Err ValueErr.
-Proof. exact fo_empty_source. Qed.
+Theorem fo_guard_empty_source : forall src nic st rst cn,
+  os_multiplicity src = [] -> from_ordinal src nic st rst cn = Err ValueErr.
+Proof. intros src nic st rst cn. exact (fo_empty_source src nic st rst). Qed.
 Print Assumptions fo_guard_empty_source.
 
-Theorem fo_succeeds : forall src nic st rst,
-  count_none nic st rst = 2%nat -> os_multiplicity src <> [] -> exists ci, from_ordinal src nic st rst = Ok ci.
-Proof. exact fo_total. Qed.
+Theorem fo_succeeds : forall src nic st rst cn,
+  count_none nic st rst = 2%nat -> os_multiplicity src <> [] -> exists ci, from_ordinal src nic st rst cn = Ok ci.
+Proof. intros src nic st rst cn. exact (fo_total src nic st rst). Qed.
 Print Assumptions fo_succeeds.
 
 (* ---- what is false of the code ---- *)
@@ -200,7 +206,7 @@ Print Assumptions fo_succeeds.
 Theorem fo_partition_empty_list_refuted :
   exists src ci,
     os_multiplicity src = [([[1]; [2]], 3)] /\
-    from_ordinal src None (Some []) None = Ok ci /\
+    from_ordinal src None (Some []) None None = Ok ci /\
     ci_preferences ci = [[]] /\ ci_num_categories ci = 0 /\
     ~ Partition [[1]; [2]] [].
 Proof. exact fo_partition_empty_truncators_refuted. Qed.
@@ -224,21 +230,21 @@ Definition ex_src : ord_src :=
                           ([[4]], 1) ] |}.
 
 Example ex_sizes :
-  exists ci, from_ordinal ex_src None (Some [2]) None = Ok ci /\
+  exists ci, from_ordinal ex_src None (Some [2]) None (Some [[84]]) = Ok ci /\   (* one name for two categories: ignored *)
     ci_preferences ci = [ [[1; 2]; [3; 4]]; [[1; 2]; [3]]; [[4]; []] ] /\
     ci_multiplicity ci = [ ([[1; 2]; [3; 4]], 2); ([[1; 2]; [3]], 7); ([[4]; []], 1) ] /\
     ci_num_voters ci = 10 /\ ci_num_unique_preferences ci = 3 /\ ci_num_categories ci = 2.
 Proof. eexists. repeat split; vm_compute; reflexivity. Qed.
 
 Example ex_classes :
-  exists ci, from_ordinal ex_src (Some [1; 1]) None None = Ok ci /\
+  exists ci, from_ordinal ex_src (Some [1; 1]) None None None = Ok ci /\
     ci_preferences ci = [ [[1]; [2]; [3; 4]]; [[1; 2]; [3]; []]; [[1]; [2]; [3]]; [[4]; []; []] ] /\
     ci_num_voters ci = 10 /\ ci_num_categories ci = 3.
 Proof. eexists. repeat split; vm_compute; reflexivity. Qed.
 
 (* relative truncators [0.5, 0.5] as tables n |-> ceil(n/2), n = 0..4 *)
 Example ex_relative :
-  exists ci, from_ordinal ex_src None None (Some [[0; 1; 1; 2; 2]; [0; 1; 1; 2; 2]]) = Ok ci /\
+  exists ci, from_ordinal ex_src None None (Some [[0; 1; 1; 2; 2]; [0; 1; 1; 2; 2]]) None = Ok ci /\
     ci_multiplicity ci = [ ([[1; 2]; [3; 4]], 2); ([[1; 2]; [3]], 7); ([[4]; []], 1) ].
 Proof. eexists. split; vm_compute; reflexivity. Qed.
 
